@@ -11,9 +11,15 @@ ASSUMPTIONS = ["small dyadic weights and inputs: float64 arithmetic is exact on 
                "at rest all state proxies are None (no operation is nested inside another one)"]
 
 
-def gen_scenario(rng, i):
-    nodes, edges, entries, din = scengen.gen_dag(rng)
-    sc = {"nodes": nodes, "models": scengen.chain_models(nodes, edges), "ops": [], "entries": entries, "din": din, "tag": i}
+def gen_scenario(rng, i, esn_ok=False):
+    if esn_ok and rng.random() < 0.12:
+        # the ESN convenience node computes the composition reservoir >> readout (run on copies, results carried back)
+        nodes, models, din = scengen.gen_esn(rng, fb=False)
+        edges, entries = [[0, 1]], [0]
+        sc = {"nodes": nodes, "models": models, "ops": [], "entries": entries, "din": din, "tag": i}
+    else:
+        nodes, edges, entries, din = scengen.gen_dag(rng)
+        sc = {"nodes": nodes, "models": scengen.chain_models(nodes, edges), "ops": [], "entries": entries, "din": din, "tag": i}
     if len(nodes) >= 3 and rng.random() < 0.35:
         # same graph assembled in place:  Model(first nodes) &= Model(rest)
         sc["models"][0].update(build="iand", cut=rng.randint(1, len(nodes) - 1))
@@ -49,7 +55,7 @@ def correspondence(ctx):
     n = ctx.n(120, 1200)
     terms, keep, nt, dist = [], [], set(), {}
     for i in range(n):
-        sc = gen_scenario(rng, i)
+        sc = gen_scenario(rng, i, esn_ok=True)
         try:
             b, obs, term = run_case(sc)
         except Exception as e:  # harness-level failure on a valid scenario
@@ -61,6 +67,7 @@ def correspondence(ctx):
         for nd in sc["nodes"]:
             dist[nd["kind"]] = dist.get(nd["kind"], 0) + 1
         dist["fanin_models"] = dist.get("fanin_models", 0) + (1 if b.extra else 0)
+        dist["esn_node"] = dist.get("esn_node", 0) + (1 if sc["models"][0].get("build") == "esn" else 0)
         if nontrivial(sc, obs):
             nt.add(repr(scen.jsonable(sc)))
     failing, err = core.run_cases(ctx.pid, IMPORTS, terms, chunk=60)
